@@ -90,6 +90,15 @@ func checkCmp(c cmpCase) string {
 		if lo := obs.EvalText(lf, d); lo.String() != out.String() {
 			return fmt.Sprintf("%s gives %s, but with the operands bound to locals first, %s gives %s", f, out, lf, lo)
 		}
+		// ... and the bound values used as text in between (concatenated, formatted, compared with a string): reading is reading
+		uf := fmt.Sprintf("$p = (%s), $q = (%s), $u = ['' + $p, 'abc' == $q, toString($q), 'abc' < $p, $p + 'x'], [$p < $q, $p == $q, $p > $q, $p <= $q, $p >= $q, $p != $q, $p === $q, $p !== $q]", a, b)
+		d2 := map[string]interface{}{}
+		for k, v := range cmpData {
+			d2[k] = v
+		}
+		if uo := obs.EvalText(uf, d2); uo.String() != out.String() && uo.Err == nil {
+			return fmt.Sprintf("%s gives %s, but with the operands bound to locals and used as text first, %s gives %s", f, out, uf, uo)
+		}
 	}
 	arr, ok := out.Val.([]interface{})
 	if out.Panic != nil || out.Err != nil || !ok || len(arr) != 8 {
